@@ -306,3 +306,6 @@ def run(ctx):
             o = obj_of(v6.objview(v6.arg(sites[0], 0), sites[0])) if len(sites) == 1 else None
             cp = [b for b, tt in v6.calls(r"::MutableIpv6Packet::<'a>::set_payload$") if obj_of(v6.objview(v6.arg(b, 1), b)) == o]
             rep.check(r4, o is not None and len(cp) == 1, 'ipv6:hop-limit-object', 'type tested on the ICMPv6 object that is sent: %s' % (o is not None and len(cp) == 1), v6.loc(bi))
+    hand_over_sound(ctx, 'C04')
+
+
